@@ -22,7 +22,10 @@ RULE = ("seeded runs; scenarios: S0 plant a prefix D[:k] of a real index documen
         "images of one ScanSAR product at once) (+readers) at write-chunk granularity under the "
         "seeded scheduler, S4b ALL interleavings of those writers at protocol-step granularity "
         "(mkdir / open / close / rename / unlink; depth-first, capped at 48 quick / 400 thorough "
-        "schedules per run); after the faults: default open == uncached reference, create_cache=True "
+        "schedules per run), S5 a creating call (option / tool) that fails with ENOSPC at byte k / "
+        "at its n-th disk operation WHILE a default open is under way: all interleavings of the "
+        "reader's probes and opens with the writer's steps (latest deviations first, capped at "
+        "40 / 300); after the faults: default open == uncached reference, create_cache=True "
         "succeeds, next default open == reference and reads no image records. Each planted prefix "
         "/ fault is one evaluation; distinct key = (scenario, location/writer, k-class, "
         "level, schedule digest for S3/S4)" % (2 * SHARDS))
@@ -58,7 +61,7 @@ def generate(rng, tier, index):
         return {"scenario": "S0", "world": wp, "location": ["user", "adjacent"][index % 2],
                 "image": 0, "others": "none", "ks": [{"shard": [index % SHARDS, SHARDS]}],
                 "exhaustive": True}
-    scenario = rng.choice(["S0", "S0", "S0", "S1", "S1", "S2", "S3", "S4", "S4"])
+    scenario = rng.choice(["S0", "S0", "S0", "S1", "S1", "S2", "S3", "S4", "S4", "S5"])
     if scenario == "S0":
         wp = _small_world(rng, ("local", "file", "simfs", "simfs_opt"))
         n_k = 16 if tier == "quick" else 40
@@ -89,6 +92,18 @@ def generate(rng, tier, index):
         return plan
     plan["sched_seed"] = rng.randrange(2**31)
     plan["switch_p"] = rng.choice([1.0, 0.5, 0.2, 0.05])
+    if scenario == "S5":
+        # a creating call that fails (disk full at byte k / at its n-th disk operation) while a
+        # default open of the same product is under way: all interleavings of the reader's
+        # probes / opens with the writer's protocol steps, latest deviations first, capped
+        plan["writer"] = rng.choice(["option", "option", "cli"]) if local else "option"
+        plan["nth"] = rng.randrange(len(wp["images"])) if plan["writer"] == "option" else 0
+        plan["cli_image"] = rng.randrange(len(wp["images"]))
+        plan["at"] = rng.choice([{"abs": 0}, {"abs": 1}, {"frac": rng.random()}, {"fromend": 1},
+                                 {"event": rng.randrange(1, 6)}])
+        plan["preexisting"] = rng.choice(["none", "complete"])
+        plan["cap"] = 40 if tier == "quick" else 300
+        return plan
     if scenario == "S3":
         plan["nth"] = rng.randrange(len(wp["images"]))
         plan["at"] = rng.choice([{"abs": 0}, {"abs": 1}, {"fromend": 1}, {"frac": rng.random()},
@@ -509,6 +524,77 @@ def run_s4_boundaries(c, ref):
         return {"schedule": bad_schedule}
 
 
+READER_KINDS = BOUNDARY_KINDS | {"stat", "open", "info", "cat"}
+
+
+def run_s5(c, ref):
+    plan = c.plan
+    docs, hashdir = _produce_docs(c)
+    writer = plan["writer"]
+    if writer == "cli":
+        img = c.prod.images[plan["cli_image"]]
+        match, nth = ".index", 0
+    else:
+        img = sorted(docs)[plan["nth"] % len(docs)]
+        match, nth = "xdg/", plan["nth"]
+    stack = [list(plan["schedule"])] if plan.get("schedule") is not None else [[]]
+    cap = 1 if plan.get("schedule") is not None else plan.get("cap", 40)
+    pick = random.Random(plan.get("sched_seed", 0))
+    j = 0
+    bad_schedule = None
+    import hashlib
+
+    while stack and j < cap:
+        prefix = stack.pop() if j % 2 == 0 else stack.pop(pick.randrange(len(stack)))
+        _clear(c)
+        if plan.get("preexisting") == "complete":
+            for name, d in docs.items():
+                c.w.plant_user(hashdir, name, d)
+        if isinstance(plan["at"], dict) and "event" in plan["at"]:
+            SIM.write_plan = {"kind": "enospc", "actor": "W", "at_event": plan["at"]["event"]}
+        else:
+            SIM.write_plan = {"kind": "enospc", "actor": "W", "match": match, "nth": nth,
+                              "at": resolve_k(plan["at"], docs[img])}
+        s = Sched(script=prefix, max_steps=400000)
+        s.only_kinds = READER_KINDS
+        n_before = len(c.violations)
+
+        def reader():
+            return c.default_open_ok(ref, "S5:during", writer=writer)
+
+        s.spawn("R", reader)            # first: the default schedule lets the reader finish first
+        s.spawn("W", lambda: _writer(c, writer, plan.get("cli_image")))
+        try:
+            s.run(wall_timeout=240)
+        finally:
+            fired = bool(SIM.write_plan.get("fired"))
+            SIM.write_plan = None
+        dec = s.decisions
+        for i in range(len(prefix), len(dec)):
+            runnable, chosen = dec[i]
+            for alt in runnable:
+                if alt != chosen:
+                    stack.append([d[1] for d in dec[:i]] + [alt])
+        j += 1
+        c.evaluations += 1
+        c.bump("s5-schedules")
+        c.bump("s5-fault-fired" if fired else "s5-fault-not-reached")
+        order = hashlib.sha256(",".join(s.trace).encode()).hexdigest()[:10]
+        c.keys.append(f"S5|{writer}|{c.prod.level}|{c.kind}|{plan.get('preexisting')}|{order}")
+        if not _sched_problems(c, s, "S5"):
+            if "R" in s.err:
+                raise s.err["R"]
+            if "W" in s.err:
+                c.bump("s5-writer-raised:" + type(s.err["W"]).__name__)
+            if c.default_open_ok(ref, "S5:after", writer=writer) and (j <= 4 or j % 8 == 0):
+                c.repair_ok(ref, "S5:after", writer=writer)
+        if len(c.violations) > n_before and bad_schedule is None:
+            bad_schedule = list(s.trace)
+    c.bump("s5-complete" if not stack else "s5-capped")
+    if bad_schedule is not None:
+        return {"schedule": bad_schedule}
+
+
 def run_s4(c, ref):
     plan = c.plan
     if plan.get("s4_mode") == "boundaries":
@@ -587,6 +673,8 @@ def execute(plan):
                 upd = run_s1_s2(c, ref)
             elif scen == "S3":
                 upd = run_s3(c, ref)
+            elif scen == "S5":
+                upd = run_s5(c, ref)
             else:
                 upd = run_s4(c, ref)
         except SimAbort:
